@@ -9,6 +9,7 @@ import (
 	"encoding/xml"
 	"errors"
 	"github.com/hslam/buffer"
+	"github.com/hslam/code"
 	"github.com/hslam/funcs"
 	"github.com/hslam/socket"
 	"sync"
@@ -58,6 +59,31 @@ func checkBuffer(buf []byte, n int) []byte {
 		buf = make([]byte, n)
 	}
 	return buf
+}
+
+var errShortBuffer = errors.New("data is too short")
+
+// checkVarint returns the number of bytes taken by the varint at the
+// start of buf, or 0 if buf ends before the varint does.
+func checkVarint(buf []byte) uint64 {
+	for i := 0; i < len(buf); i++ {
+		if buf[i]&0x80 == 0 || i == 9 {
+			return uint64(i) + 1
+		}
+	}
+	return 0
+}
+
+// checkBytes reports whether buf starts with a complete
+// varint-length-prefixed field.
+func checkBytes(buf []byte) bool {
+	n := checkVarint(buf)
+	if n == 0 {
+		return false
+	}
+	var length uint64
+	code.DecodeVarint(buf, &length)
+	return length <= uint64(len(buf))-n
 }
 
 // GetBuffer gets a buffer from the pool.
